@@ -703,3 +703,17 @@ def construct_builtin(ip, cls, args, kwargs, st, node):
             yield SObj(cls, {'args': tuple(args)}), st
         return g()
     return NotImplemented
+
+
+@intrinsic(math.isclose)
+def _isclose(ip, args, kwargs, st, node):
+    """math.isclose(a, b, rel_tol=1e-09, abs_tol=0.0): |a - b| <= max(rel_tol * max(|a|, |b|), abs_tol) (finite values)"""
+    from fractions import Fraction
+    a, b = _num(ip, node, args[0]), _num(ip, node, args[1])
+    rel = kwargs.get('rel_tol', Fraction(1, 10 ** 9))
+    ab = kwargs.get('abs_tol', 0)
+    rel = Fraction(rel) if isinstance(rel, float) else rel
+    ab = Fraction(ab) if isinstance(ab, float) else ab
+    d = mm.m_abs(mm.arith(ip.ctx, '-', a, b))
+    bound = mm.m_max(mm.arith(ip.ctx, '*', rel, mm.m_max(mm.m_abs(a), mm.m_abs(b))), ab)
+    return mm.compare('<=', d, bound)
